@@ -232,7 +232,9 @@ impl<S: Read> Master<S> {
             r is Ok && r->Ok_0 is Break ==> done(final(process)), // @obl LOOP.break_reported : C14
             // a pipeline that was not done at entry is never called again after it became done (C14.loop)
             r is Ok && !old(process).must_break() && final(process).must_break() ==> done(final(process)), // @obl LOOP.break : C14
+            r is Ok && r->Ok_0 is Continue && !old(process).must_break() ==> !final(process).must_break(), // @obl LOOP.continue_not_done : C14
             *final(index) >= *old(index), // @obl LOOP.index_monotone : C17
+            r is Ok ==> *final(index) + final(reader).pending().len() <= *old(index) + old(reader).pending().len(), // @obl LOOP.index_bound : C17 C05
 //@@ body-start
         let ghost mut fed: Seq<Context> = Seq::empty();
         let ghost i0 = *index;
@@ -248,7 +250,7 @@ impl<S: Read> Master<S> {
                 *index + reader.pending().len() <= i0 + n0, i0 + n0 <= u64::MAX, i0 == *old(index),
                 fed_post(old(process), process, fed),
                 old(process).must_break() || !process.must_break(),
-                p0 == old(reader).pending(),
+                p0 == old(reader).pending(), n0 == p0.len(),
                 !self.only_oa() && clean(p0) ==> clean(reader.pending()) && inputs(fed).add(vals(reader.pending())) == vals(p0),
             decreases reader.pending().len(),
 //@@ loop-start 1
@@ -262,11 +264,13 @@ impl<S: Read> Master<S> {
                     }
 //@@ before "break Ok(ProcessDesision::Break);"
                             proof {
+                                assert(reader.pending().len() <= ph.len());
                                 assert(fed_ok(fed, i0));
                                 assert(fed_post(old(process), process, fed));
                             }
 //@@ before "return Ok(ProcessDesision::Continue);"
                     proof {
+                        assert(reader.pending().len() <= ph.len());
                         lemma_pv(ph);
                         assert(vals(ph) =~= Seq::<JsonValue>::empty());
                         assert(inputs(fed).add(Seq::<JsonValue>::empty()) =~= inputs(fed));
